@@ -339,11 +339,11 @@ theorem serve_log (E : ReEnv) (cfg : Cfg) (e : Entry) (w : World) (sr : SReq) :
   rw [hr2, h0]
   simp
 
-theorem userEvents_append_recover (X r : List Event) (h : AllRecover r) : userEvents (X ++ r) = userEvents X := by
-  have h1 : userEvents (X ++ r) = userEvents X ++ userEvents r := by
+theorem userEvents_append_recover (k : Bool) (X r : List Event) (h : AllRecover r) : userEvents k (X ++ r) = userEvents k X := by
+  have h1 : userEvents k (X ++ r) = userEvents k X ++ userEvents k r := by
     unfold userEvents
     exact List.filter_append ..
-  have h2 : userEvents r = [] := by
+  have h2 : userEvents k r = [] := by
     unfold userEvents
     rw [List.filter_eq_nil_iff]
     intro ev hev
@@ -352,10 +352,10 @@ theorem userEvents_append_recover (X r : List Event) (h : AllRecover r) : userEv
   rw [h1, h2, List.append_nil]
 
 /-- the user-code events of the model's log are those of the specified chain -/
-theorem serve_userEvents (E : ReEnv) (cfg : Cfg) (e : Entry) (w : World) (sr : SReq) :
-    userEvents (serve E cfg e w sr).log = userEvents (chainEvents E cfg e sr) := by
+theorem serve_userEvents (k : Bool) (E : ReEnv) (cfg : Cfg) (e : Entry) (w : World) (sr : SReq) :
+    userEvents k (serve E cfg e w sr).log = userEvents k (chainEvents E cfg e sr) := by
   obtain ⟨r, hr1, hr2⟩ := serve_log E cfg e w sr
-  rw [hr2, userEvents_append_recover _ _ hr1]
+  rw [hr2, userEvents_append_recover k _ _ hr1]
 
 /-! ### the shape of `chainLog` -/
 
@@ -666,8 +666,8 @@ theorem chainOf_labels (E : ReEnv) (cfg : Cfg) (e : Entry) (sr : SReq) (fs : Lis
 
 /-- on the model's log: with distinct filter ids per level, no stage of user code starts twice or
     comes back twice -/
-theorem serve_nodup (E : ReEnv) (cfg : Cfg) (hd : DistinctIds cfg) (e : Entry) (w : World) (sr : SReq) :
-    ((userEvents (serve E cfg e w sr).log).map (fun ev => (ev.stage, ev.post))).Nodup := by
+theorem serve_nodup (k : Bool) (E : ReEnv) (cfg : Cfg) (hd : DistinctIds cfg) (e : Entry) (w : World) (sr : SReq) :
+    ((userEvents k (serve E cfg e w sr).log).map (fun ev => (ev.stage, ev.post))).Nodup := by
   rw [serve_userEvents, chainEvents]
   cases h : chainOf E cfg e sr with
   | none => exact List.nodup_nil
